@@ -88,7 +88,9 @@ theorem stun_decode_encode_accepted (H : Bytes → Bytes) (hH : ∀ x, (H x).len
   rw [decodeX_encode_fields H hH m h k fp hfit]
   by_cases hk : k = [] <;> simp [hk]
 
-/-- `encode` refuses (empty result) exactly the messages that do not fit the 16-bit length field -/
+/-- **`encode` refuses (empty result) exactly the messages that do not fit the 16-bit length field, trailer included**: the
+bound applies to the attributes of `m` PLUS the 24 bytes of MESSAGE-INTEGRITY (when a key is given) PLUS the 8 bytes of
+FINGERPRINT (when asked for) — the size check of /repo commit 910f587 sits behind both appends. -/
 theorem encode_refuses_exactly_oversized (H : Bytes → Bytes) (hH : ∀ x, (H x).length = 20) (m : Msg)
     (hid : m.id.length = 12) (k : Bytes) (fp : Bool) :
     encode H m k fp = [] ↔ 65536 ≤ (body m).length + (if k = [] then 0 else 24) + (if fp then 8 else 0) := by
@@ -103,6 +105,21 @@ theorem encode_refuses_exactly_oversized (H : Bytes → Bytes) (hH : ∀ x, (H x
     simp only [List.length_nil, Stun.headerSize] at this
     split at this <;> split at this <;> omega
   · exact encode_eq_nil H hH m hid k fp
+
+/-- in the window where only the trailer pushes the message over the limit it is refused too: attributes of 65504..65535
+bytes with key and fingerprint (65512.. with a key only, 65528.. with fingerprint only); the harness sweeps every size
+65480..65560 x key x fingerprint against the real `encode` (seeded change C14_d1 moved the check in front of the trailer) -/
+theorem encode_bound_includes_trailer (H : Bytes → Bytes) (hH : ∀ x, (H x).length = 20) (m : Msg) (hid : m.id.length = 12)
+    (k : Bytes) (hk : k ≠ []) :
+    (65504 ≤ (body m).length → encode H m k true = []) ∧ (65512 ≤ (body m).length → encode H m k false = []) ∧
+    (65528 ≤ (body m).length → encode H m [] true = []) ∧
+    ((body m).length < 65504 → encode H m k true ≠ []) := by
+  refine ⟨fun h => ?_, fun h => ?_, fun h => ?_, fun h he => ?_⟩
+  · exact (encode_refuses_exactly_oversized H hH m hid k true).mpr (by simp [hk]; omega)
+  · exact (encode_refuses_exactly_oversized H hH m hid k false).mpr (by simp [hk]; omega)
+  · exact (encode_refuses_exactly_oversized H hH m hid [] true).mpr (by simp; omega)
+  · have := (encode_refuses_exactly_oversized H hH m hid k true).mp he
+    simp [hk] at this; omega
 
 /-- the old witness: `setData` with 65532 bytes or more is refused -/
 example (H : Bytes → Bytes) (hH : ∀ x, (H x).length = 20) (d : Bytes) (hd : 65532 ≤ d.length) :
